@@ -119,6 +119,8 @@ pub fn create_module() -> Scope {
         static CALL_ID: LazyLock<Mutex<u64>> = LazyLock::new(|| {
             Mutex::new(u64::from(std::process::id()) * 0xa01)
         });
+        #[cfg(feature = "verif_hooks")]
+        crate::verif::yield_point();
         let v = {
             let mut v = CALL_ID.lock().unwrap();
             *v += 1;
